@@ -913,6 +913,20 @@ theorem sessOp_keeps_noc_mark (cfg : Cfg) (n : Node) (sid : Nat) (mode : Mode) (
     · cases hg : getFabric n mode.fab with
       | none => exact hm
       | some f => exact writeResult_fs n f f hm
+  | vvs s =>
+    simp only [sessOp]
+    split
+    · exact hm
+    · cases hg : getFabric n mode.fab with
+      | none => exact hm
+      | some f =>
+        simp only []
+        split
+        · exact hm
+        · have hfr := (storeFabric_spec n f).1
+          rcases hr : storeFabric n f with ⟨n2, b⟩
+          rw [hr] at hfr
+          cases b <;> exact nocMark_of_fs hfr.fs hm
   | net s v =>
     simp only [sessOp]
     repeat' split
